@@ -10,20 +10,130 @@ PANIC_CALLEES = ("core::panicking::", "std::rt::panic", "std::rt::begin_panic", 
 
 
 class Facts:
-    def __init__(self, d=FACTS_DIR):
+    def __init__(self, d=FACTS_DIR, inline=True):
         self.fns, self.adts, self.consts, self.statics = {}, {}, {}, []
+        raw = {}
         for c in CRATES:
             j = json.load(open(os.path.join(d, c + ".json")))
-            for k, v in j["fns"].items():
-                self.fns[k] = Fn(k, v, self)
+            raw.update(j["fns"])
             self.adts.update(j["adts"])
             self.consts.update(j["consts"])
             self.statics += j["statics"]
+        self.inlined_helpers = {}
+        if inline:
+            raw, self.inlined_helpers = inline_helpers(raw)
+        for k, v in raw.items():
+            self.fns[k] = Fn(k, v, self)
 
     def fn(self, suffix):
         m = [f for k, f in self.fns.items() if k == suffix or k.endswith("::" + suffix)]
         assert len(m) == 1, (suffix, [f.path for f in m])
         return m[0]
+
+
+# ---- helper inlining ----------------------------------------------------------------------------------------------------------
+# A private function that no rule names (its name does not occur in any rule file) is a *helper*: it is inlined into its callers and is not
+# a subject of its own. This makes every rule invariant under "extract a block into a private helper" refactorings: the caller's inlined body
+# has the same stores, guards and calls as before the extraction (parameters are bound to the argument operands, so origins resolve to the
+# caller's places). Functions named by a rule (anchors), public functions, closures and recursive functions are never inlined.
+_ANCHOR_TEXT = None
+
+def anchor_text():
+    global _ANCHOR_TEXT
+    if _ANCHOR_TEXT is None:
+        import glob
+        root = os.path.dirname(os.path.dirname(os.path.abspath(__file__)))
+        _ANCHOR_TEXT = "\n".join(open(p).read() for p in glob.glob(os.path.join(root, "rules", "*.py")) + [os.path.join(root, "sa", "obl.py"), os.path.join(root, "sa", "codec.py")])
+    return _ANCHOR_TEXT
+
+
+def _strip_generics(p):
+    import re
+    return re.sub(r"::<.*$", "", re.sub(r"::<[^>]*>(?=::)", "", p or ""))
+
+
+def is_helper(path, j):
+    import re
+    if j.get("kind") not in ("Fn", "AssocFn") or "{closure" in path or "{impl" in path.rsplit("::", 1)[-1]: return False
+    if str(j.get("vis", "")).startswith("Public"): return False
+    name = path.rsplit("::", 1)[-1]
+    if re.search(r"\b" + re.escape(name) + r"\b", anchor_text()): return False
+    return True
+
+
+def _shift(node, dl, db, keep_param_names=False):
+    """deep copy of a statement / terminator with local indices shifted by dl and block indices by db"""
+    if isinstance(node, list): return [_shift(x, dl, db) for x in node]
+    if not isinstance(node, dict): return node
+    out = {}
+    for k, v in node.items():
+        if k == "local" and isinstance(v, int): out[k] = v + dl
+        elif k in ("target", "otherwise") and isinstance(v, int): out[k] = v + db
+        elif k == "unwind" and isinstance(v, int): out[k] = v + db
+        elif k == "targets" and isinstance(v, list): out[k] = [[val, bb + db] for val, bb in v]
+        else: out[k] = _shift(v, dl, db)
+    return out
+
+
+def inline_helpers(raw, max_rounds=6):
+    helpers = {p for p, j in raw.items() if is_helper(p, j)}
+    # callers graph restricted to helpers, to refuse recursion
+    def callees(j):
+        out = set()
+        for b in j["blocks"]:
+            t = b["term"]
+            if t["k"] == "call":
+                r = _strip_generics(t.get("resolved") or "")
+                if r in raw: out.add(r)
+        return out
+    rec = set()
+    for h in helpers:
+        seen, st = set(), list(callees(raw[h]))
+        while st:
+            x = st.pop()
+            if x == h: rec.add(h); break
+            if x in seen or x not in helpers: continue
+            seen.add(x); st.extend(callees(raw[x]))
+    helpers -= rec
+    used = {}
+    out = {p: j for p, j in raw.items()}
+    for _ in range(max_rounds):
+        changed = False
+        for p in list(out):
+            j = out[p]
+            new_blocks = None
+            for bi in range(len(j["blocks"])):
+                b = j["blocks"][bi]
+                t = b["term"]
+                if t["k"] != "call" or b.get("cleanup"): continue
+                r = _strip_generics(t.get("resolved") or "")
+                if r not in helpers or r == p: continue
+                cal = out[r]
+                if any(bb["term"]["k"] == "call" and _strip_generics(bb["term"].get("resolved") or "") in helpers for bb in cal["blocks"] if not bb.get("cleanup")):
+                    continue   # inline the callee's own helpers first (next round)
+                if len(t["args"]) != cal["argc"]: continue
+                if new_blocks is None:
+                    j = dict(j); j["locals"] = list(j["locals"]); j["blocks"] = [dict(x) for x in j["blocks"]]; out[p] = j
+                    new_blocks = True
+                dl, db = len(j["locals"]), len(j["blocks"])
+                for l in cal["locals"]:
+                    nl = dict(l); nl["i"] = l["i"] + dl; nl["inl"] = r
+                    j["locals"].append(nl)
+                b = j["blocks"][bi] = dict(j["blocks"][bi]); b["stmts"] = list(b["stmts"])
+                for k, a in enumerate(t["args"]):
+                    b["stmts"].append({"k": "assign", "place": {"local": dl + 1 + k, "proj": []}, "rv": {"k": "use", "op": a}, "span": t["span"], "inl_arg": True})
+                b["term"] = {"k": "goto", "target": db, "span": t["span"], "inl_call": r}
+                for cb in cal["blocks"]:
+                    nb = {"i": cb["i"] + db, "cleanup": cb.get("cleanup", False), "stmts": _shift(cb["stmts"], dl, db), "term": _shift(cb["term"], dl, db)}
+                    if nb["term"]["k"] == "return":
+                        nb["stmts"].append({"k": "assign", "place": t["dest"], "rv": {"k": "use", "op": {"k": "move", "place": {"local": dl, "proj": []}}}, "span": nb["term"]["span"], "inl_ret": True})
+                        nb["term"] = {"k": "goto", "target": t["target"], "span": nb["term"]["span"]} if t["target"] is not None else {"k": "unreachable", "span": nb["term"]["span"]}
+                    j["blocks"].append(nb)
+                used[r] = used.get(r, 0) + 1
+                changed = True
+        if not changed: break
+    for h in used: out.pop(h, None)
+    return out, used
 
 
 def is_log_or_derive(span):
